@@ -291,7 +291,6 @@ func isRefContainer(t types.Type) bool {
 	return false
 }
 
-
 // isConfigFunc: a With… method, a constructor or clone helper declared on/for a configuration type.
 func isConfigFunc(fn *ssa.Function, seeds map[*types.Named]bool, with map[string]bool) bool {
 	for fn.Parent() != nil {
